@@ -192,7 +192,6 @@ func c24NewEnv(dir, honeyURL string, k c24CfgKey) (*c24Env, error) {
 	if err != nil {
 		return nil, err
 	}
-	sink := &c24Sink{}
 	cfg := &config.MockConfig{
 		GetAccessKeyConfigVal: access,
 		GetHoneycombAPIVal:    honeyURL,
@@ -209,6 +208,18 @@ func c24NewEnv(dir, honeyURL string, k c24CfgKey) (*c24Env, error) {
 		ParentIdFieldNames:  []string{"trace.parent_id", "parentId"},
 		GetSamplerTypeVal:   &config.DeterministicSamplerConfig{SampleRate: 1},
 	}
+	e, err := c24StartRouter(cfg)
+	if err != nil {
+		return nil, err
+	}
+	e.access = access
+	return e, nil
+}
+
+// c24StartRouter builds a real incoming Router around cfg (Router.LnS) and
+// serves its mux and its gRPC server on loopback listeners of known address.
+func c24StartRouter(cfg config.Config) (*c24Env, error) {
+	sink := &c24Sink{}
 	mm := &metrics.MockMetrics{}
 	mm.Start()
 	hr := &health.MockHealthReporter{}
@@ -233,7 +244,7 @@ func c24NewEnv(dir, honeyURL string, k c24CfgKey) (*c24Env, error) {
 		return nil, fmt.Errorf("Router.LnS did not build its servers")
 	}
 	// the router's own mux and gRPC server, on listeners whose address we know
-	e := &c24Env{router: r, sink: sink, access: access}
+	e := &c24Env{router: r, sink: sink}
 	e.httpSrv = httptest.NewServer(r.server.Handler)
 	lis, err := net.Listen("tcp", "127.0.0.1:0")
 	if err != nil {
